@@ -28,7 +28,7 @@ ASSUMPTIONS = [
     "crash points are step kinds x 5 modes, not every instruction; ninja's own log writing is not interrupted",
     "SOURCE_DATE_EPOCH fixed; a disagreement between two clean builds would be C08's business",
 ]
-BUDGET = {"quick": 16, "thorough": 240}
+BUDGET = {"quick": 12, "thorough": 240}
 TIMEOUT = {"quick": 1800, "thorough": 10000}
 MAX_WORKERS = 16
 
@@ -121,6 +121,36 @@ def history(draw, tier):
 
 def cases(tier):
     return history(tier)
+
+
+SVG_A = '<svg xmlns="http://www.w3.org/2000/svg" viewBox="0 0 100 100"><rect x="10" y="10" width="40" height="30" fill="#c02030"/><circle cx="60" cy="60" r="20" fill="#2040c0"/></svg>'
+SVG_B = '<svg xmlns="http://www.w3.org/2000/svg" viewBox="0 0 100 100"><path d="M20,80 L50,20 L80,80 Z" fill="#10a040"/></svg>'
+SVG_C = '<svg xmlns="http://www.w3.org/2000/svg" viewBox="0 0 100 100"><rect x="30" y="30" width="40" height="40" fill="#e0a000" opacity="0.5"/></svg>'
+
+
+def enumerate_cases(tier):
+    """Fault enumeration: every step kind x mode of the build graph, plus the two driver faults, each in a fixed short history
+    where the faulted invocation is (a) the first one in an empty build directory, so every step is dirty and the fault is
+    sure to fire, or (b) the one after an edit of every source and of the configuration. Quick: (a) for all faults, (b) for
+    a VERIF_SEED-dependent third; thorough: both for all."""
+    seed = int(os.environ.get("VERIF_SEED") or "1")
+    faults = []
+    for tgt in PY_TARGETS:
+        for mode in MODES:
+            faults.append(("cbdt" if tgt in ("nanoemoji.pngquant", "zopfli.png") else "glyf_colr_1", "%s:%s" % (tgt, mode)))
+    for tgt in ("resvg", "pngquant"):
+        for mode in MODES:
+            faults.append(("cbdt", "%s-bin:%s" % (tgt, mode)))
+    for mode in ("driver_kill_before_ninja", "driver_truncate_ninja"):
+        faults.append(("glyf_colr_1", "driver:" + mode))
+        faults.append(("picosvg", "driver:" + mode))
+    for i, (fmt, fault) in enumerate(faults):
+        opt = [{"op": "option", "key": "color_format", "value": fmt}]
+        add = [{"op": "add", "cps": [0x1F600], "svg": SVG_A}, {"op": "add", "cps": [0x1F601, 0x200D, 0x1F602], "svg": SVG_B}]
+        yield {"steps": opt + add + [{"op": "invoke", "fault": fault}, {"op": "invoke", "fault": None}], "via_toml": i % 2 == 0}
+        if tier == "thorough" or (i + seed) % 3 == 0:
+            edit = [{"op": "modify", "cps": [0x1F600], "svg": SVG_C}, {"op": "modify", "cps": [0x1F601, 0x200D, 0x1F602], "svg": SVG_A}, {"op": "option", "key": "upem", "value": 2048}]
+            yield {"steps": opt + add + [{"op": "invoke", "fault": None}] + edit + [{"op": "invoke", "fault": fault}, {"op": "invoke", "fault": None}, {"op": "invoke", "fault": None}], "via_toml": i % 2 == 1}
 
 
 def fname(cps):
@@ -241,7 +271,7 @@ def judge(case):
                     if got.get(name) != h:
                         v.fail("stale-output", ("old-mtime-onto-built-name:" if old_mtime_reuse else "") + opts.get("color_format", "default"), {"step": si, "font": name, "incremental": got.get(name), "clean": h,
                                                                                       "history": [x if x["op"] not in ("add", "modify") else dict(x, svg="…") for x in steps[: si + 1]]})
-                if edits_since_success and fault_or_option_since_success and had_success:
+                if edits_since_success and fault_or_option_since_success:
                     v.nontrivial = True
                 had_success = True
                 edits_since_success = 0
